@@ -76,7 +76,8 @@ CHECKS["C15"] = dict(
           "step is exactly the mean over the distinct edge neighbours (vertex areas cancel), hence weights >= 0 summing to 1 on "
           "neighbours, linear, fixes constants, and k steps stay in [lo,hi] (induction). Column-wise action, ValueError on wrong length, "
           "smooth_ and dtype handling are tied by correspondence + oracles. The clause 'map_tfunc_to_vfunc maps constants to constants' "
-          "is refuted by the code and the model alike (known finding F13: conflicts with conservation)."),
+          "is refuted by the code and the model alike (known finding F13: conflicts with conservation; theorem "
+          "C15_constants_to_constants_refuted gives the witness on the 3-fan for arbitrary coordinates)."),
     design="6/C15", technique="Coq proof over R (scatter/sum lemmas, field, induction on iterations) + vm_compute correspondence")
 
 CHECKS["C20"] = dict(
@@ -86,7 +87,9 @@ CHECKS["C20"] = dict(
           "exactly the used vertices and preserves geometry. (2) Translator: harness/effects_extract.py regenerates from /repo's source "
           "on every run the table of write effects of all 91 public functions; the Coq theorem C20_effects_table_ok (vm_compute + "
           "soundness lemma) states that non-underscore functions write neither v/t of any mesh nor caller arrays nor call in-place "
-          "methods, that in-place methods re-initialise after their last element write, and that constructors copy. (3) Correspondence: "
+          "methods, that in-place methods re-initialise after their last element write, that constructors copy, and that outside the "
+          "constructor no method of a mesh class assigns an attribute of self other than v and t (no hidden cache that the in-place "
+          "operations would leave stale). (3) Correspondence: "
           "exhaustive op sequences up to length 2/3 on seed meshes, model vs implementation, plus live-vs-fresh query oracles and "
           "before/after snapshots around every public function."),
     design="6/C20", technique="Coq invariant proof over operation histories + AST translator re-checked by vm_compute + exhaustive short histories")
@@ -162,11 +165,13 @@ CHECKS["C16"] = dict(
           "crossing patterns the isolated corner is chosen and uncrossed triangles are skipped; each computed point is a convex "
           "combination strictly inside a mesh edge where the interpolant equals the level, independent of edge direction; level_length "
           "(one level or an array) = sum over triangles of the segment between the two crossed edges (independent spec); level_path "
-          "returns exactly that length for all options (unique-edge table lookups proved correct); non-scalar input gives ValueError. "
-          "Path order, common/reported triangle, merging at 1e-3 and arc-length resampling are modelled (walk along the path graph "
-          "standing for shortest_path+argsort; np.interp/linspace) and decided by correspondence plus brute-force oracles; no theorem "
-          "for them yet (partial)."),
-    design="6/C16", technique="Coq proof over R (case analysis on crossing patterns, field) + vm_compute correspondence at binary64")
+          "returns exactly that length for all options (unique-edge table lookups proved correct); non-scalar input gives ValueError; "
+          "the ordered path visits every node exactly once along edges of the segment graph, every segment joins the two crossing "
+          "points of ONE crossed mesh triangle which is the triangle reported for it; resampling (all three rounds) returns n points "
+          "with unchanged first and last point. The walk stands for shortest_path+argsort (identical on graphs of degree <= 2, tied to "
+          "the code by correspondence); merging at 1e-3 and equal arc-length spacing are decided by correspondence plus brute-force "
+          "oracles (partial)."),
+    design="6/C16", technique="Coq proof over R (case analysis on crossing patterns, field, list induction over the walk) + vm_compute correspondence at binary64")
 
 CHECKS["C17"] = dict(
     text=("Theorems over R about the Gallina model of curvature()/curvature_tria(), with the eigen-solver as an oracle: for EVERY result "
